@@ -23,7 +23,7 @@ ASSUMPTIONS = ['initial exits are declared well-formed (stop on the losing side,
                'price); jesse replaces wrong-sided initial exits by market orders, a documented convenience outside the statement',
                'current price = position.current_price at the instant of submission (equals strategy.price)',
                'decisions closer than 1e-12 to the 0.015 % threshold accept either type']
-MIN_OBS = {'stops_declared_inside_an_entry_ladder': 30, 'declared_rows_checked': 3000, 'routed_rows': 2000, 'routed_rows_near_boundary': 150, 'exit_modifications': 200, 'after_checks_with_position': 2000,
+MIN_OBS = {'wrong_sided_initial_stops_replaced': 8, 'stops_declared_inside_an_entry_ladder': 30, 'declared_rows_checked': 3000, 'routed_rows': 2000, 'routed_rows_near_boundary': 150, 'exit_modifications': 200, 'after_checks_with_position': 2000,
            'cancel_decisions_yes': 150, 'cancel_decisions_no': 150, 'sweep_points': 1500}
 TH = 0.00015
 
@@ -56,6 +56,8 @@ def check_trace(events, aborted):
 
     book = pathmon.Book()
     decl = {}            # symbol -> latest declaration dict
+    wrong_sided = {}     # symbol -> the scripted strategy has just declared a wrong-sided initial stop (harness note)
+    replacement = {}     # order -> (symbol, stop-loss rows it stands for): jesse's market order for a wrong-sided initial stop
     decl_hook = {}
     last_exit_decl = {}
     in_terminate = set()
@@ -64,6 +66,9 @@ def check_trace(events, aborted):
     calls = {}
     for e in events:
         k = e['k']
+        if k == 'note' and e.get('what') == 'wrong_sided_initial_stop':
+            wrong_sided[e.get('symbol')] = True
+            continue
         if k == 'hook':
             sym = e['symbol']
             h = e['hook']
@@ -222,11 +227,27 @@ def check_trace(events, aborted):
                 key = 'submitted_order_matches_no_declared_row'
                 if kind == 'exit' and not ro:
                     key = 'exit_not_reduce_only'
+                    if typ == 'MARKET' and wrong_sided.get(sym) and any(abs(r[0]) == q for r in (d.get('sl') or [])
+                                                                          if isinstance(d.get('sl'), list)):
+                        # classification only: jesse replaces a stop declared with the entry on the wrong side of the entry price
+                        # by a plain market order for its quantity (listed finding; anything else keeps the general key)
+                        key = 'wrong_sided_initial_exit_replaced_by_market_order'
+                        wrong_sided[sym] = False
+                        c('wrong_sided_initial_stops_replaced')
+                        replacement[e['o']] = (sym, [tuple(r) for r in d.get('sl')])
                 # an exit routed as a plain (non reduce-only) order shows up as an 'entry' that matches no entry row
                 if kind == 'entry' and posq != 0:
                     ex_rows = [tuple(r) for name in ('sl', 'tp') for r in (d.get(name) or []) if isinstance(d.get(name), list)]
                     if any(abs(r[0]) == q for r in ex_rows):
                         key = 'exit_not_reduce_only'
+                        if typ == 'MARKET' and wrong_sided.get(sym) and any(
+                                abs(r[0]) == q for r in (d.get('sl') or []) if isinstance(d.get('sl'), list)):
+                            # classification only: jesse replaces a stop declared with the entry on the wrong side of the entry
+                            # price by a plain market order for its quantity (listed finding)
+                            key = 'wrong_sided_initial_exit_replaced_by_market_order'
+                            wrong_sided[sym] = False
+                            c('wrong_sided_initial_stops_replaced')
+                            replacement[e['o']] = (sym, [tuple(r) for r in d.get('sl')])
                 v(key, f'{kind} order {typ} {side} {q}@{p} (current {cur}, after hook {decl_hook.get(sym)}) matches no row of '
                        f'{ {kk: d.get(kk) for kk in ("buy", "sell", "sl", "tp")} }', order={kk: e[kk] for kk in ('o', 'type', 'side', 'qty', 'price', 'reduce_only', 't')})
                 continue
@@ -262,6 +283,16 @@ def check_trace(events, aborted):
             o = book.o.get(e['o'])
             if o is not None and calls.get(e['o'], {}).get('status') == 'ACTIVE' and e['status'] == 'EXECUTED':
                 o['status'] = 'EXECUTED'
+                if e['o'] in replacement:
+                    # the market order standing for the stop rows declared with the entry: once the strategy has declared other
+                    # stop rows, it is a stale exit and must have been cancelled
+                    sym_, rows_ = replacement.pop(e['o'])
+                    now_ = (decl.get(sym_) or {}).get('sl')
+                    c('wrong_sided_replacement_orders_followed')
+                    if isinstance(now_, list) and [tuple(r) for r in now_] != rows_:
+                        v('stale_exit_order_after_modification',
+                          f"the MARKET order that stood for the initial stop rows {rows_} was executed after the stop-loss had been "
+                          f"re-declared as {now_}", order=o)
                 pb = (calls[e['o']].get('pos') or {}).get('qty')
                 pa = (e.get('pos') or {}).get('qty')
                 if o.get('reduce_only') and not o.get('in_liq'):
@@ -302,6 +333,10 @@ def _session(job):
         sc['cancel_policy'] = rng.choice(['rnd', 'rnd', 'never', 'always'])
         sc['entry'] = rng.choice(['limit', 'stop', 'ladder', 'mixed', 'near'])
         sc['p_enter'] = rng.choice([0.2, 0.4])
+        if job['i'] % 10 == 6 and spec['config']['type'] != 'spot':
+            # a single market entry whose stop is declared on the WRONG side of the entry in go_long / go_short and declared
+            # properly in on_open_position
+            sc.update(entry='market', exits_in='go', wrong_side_sl_in_go=0.7, sl=sc.get('sl') or 0.01, sl_points=1)
         if job['i'] % 5 == 2 and spec['config']['type'] != 'spot':
             # an entry ladder with its exits declared in go_long / go_short and the stop BETWEEN the first two rungs
             sc.update(entry='ladder', exits_in='go', sl_inside_ladder=True, sl=sc.get('sl') or 0.01, sl_points=1, entry_dist=0.004)
